@@ -1,5 +1,7 @@
 package main
 
+import "strings"
+
 func runC01(c *Ctx) {
 	r := c.R
 	r.Rule = "generated expressions (type-directed; every node kind, nested closures and conditionals) x modes x environments: (i) compile model = compiler.Compile byte for byte, (ii) VM model = (*VM).Run, (iii) reference evaluator Spec.eval = real run (value, error class, call log, allocation total); non-trivial = source longer than 6 characters"
@@ -24,8 +26,21 @@ func runC01(c *Ctx) {
 	ok = append(ok, CompileCorrespondenceBuilt(c, enum)...)
 	res := VMCorrespondence(c, ok, 1000)
 	// tie of the Spec as the theorems use it (mirroring the code's known deviations)
+	tieDiff := map[*VMResult]bool{}
 	SpecCorrespondence(c, res, 1000, asIs.RangeSigned, true, func(vr *VMResult, spec, real string) {
+		tieDiff[vr] = true
 		r.Mismatch("spec", vr.Case.Src+" ["+vr.Case.Mode.String()+"] env="+valSx(envVal(vr.Case)).String()+" tree="+vr.Case.B.TreeSx, spec, real)
+	})
+	// the property oracle: the language definition itself (left-to-right evaluation, unsigned range sizes)
+	SpecCorrespondence(c, res, 1000, false, false, func(vr *VMResult, spec, real string) {
+		key := "c01:differs-from-language-definition"
+		if !tieDiff[vr] && strings.Contains(vr.Case.B.TreeSx, "(slice ") {
+			// the one listed deviation: the compiler emits the `to` bound of a[from:to] before `from`
+			key = "c01:slice-bounds-evaluated-right-to-left"
+		}
+		r.Violate(Violation{What: "compiled evaluation differs from the reference evaluator (value, error class, call log or allocation total)",
+			Key: key, Input: map[string]string{"expr": vr.Case.Src, "mode": vr.Case.Mode.String(), "env": valSx(envVal(vr.Case)).String(), "tree": vr.Case.B.TreeSx},
+			Expect: spec, Got: real})
 	})
 }
 
